@@ -12,7 +12,7 @@ ASSUMPTIONS = ['proved for the Core fragment (plain functions, durable inputs); 
                'correspondence of later model stages when available']
 
 def ties(ctx):
-    a = 600 if ctx.tier == 'quick' else 50000
+    a = 6000 if ctx.tier == 'quick' else 50000
     return [run_seq(ctx, 'core', a, model='core', corpus='CORE-SEQ')]
 
 def search(ctx, reason):
